@@ -150,7 +150,8 @@ def run(ctx):
                             return repr(x) == repr(y)
                     if r2["C"][0] != r2["Py"][0] or (r2["C"][0] == "ok" and not same_value(r2["C"][1], r2["Py"][1])):
                         unord = f.kk == "O" and role == "key" and not isinstance(a, Plain) and a is not None
-                        bad = ("out-of-domain-" + role, name + (":empty-container" if not before["C"] else "") + (":unorderable-key" if unord else ""), r2["C"], r2["Py"], repr(a)[:40], repr(b)[:40])
+                        only_none = all((x if setlike else x[0]) is None for x in before["C"])     # no stored key whose comparison could be asked
+                        bad = ("out-of-domain-" + role, name + (":empty-container" if (not before["C"] or only_none) else "") + (":unorderable-key" if unord else ""), r2["C"], r2["Py"], repr(a)[:40], repr(b)[:40])
                     else:
                         if r2["C"][0] == "TypeError":
                             stats["typeerror_both"] += 1
